@@ -158,6 +158,9 @@ Degenerate(i) ==
 \* ---- instructions outside the integer core: declared sets (not probed) ------------------------------------
 X87 == {"x87"}
 E(txt, r, w, wu) == [txt |-> txt, r |-> r, w |-> w, wu |-> wu]
+XP == INSTANCE X87Pos
+MemB == {"ebx", "mem[ebx]"}
+EX(txt, form) == E(txt, XP!Reads(form), XP!Writes(form), {})
 Ext == <<
    E("daa", {"eax", "af", "cf"}, {"eax", "cf", "af", "sf", "zf", "pf"}, {"of"}),
    E("das", {"eax", "af", "cf"}, {"eax", "cf", "af", "sf", "zf", "pf"}, {"of"}),
@@ -248,23 +251,48 @@ Ext == <<
    E("pcmpestrm xmm1, xmm2, 0x0c", {"xmm1", "xmm2", "eax", "edx"}, {"xmm0"} \cup Flags6, {}),
    E("maskmovq mm1, mm2", {"mm1", "mm2", "edi"}, {"mem[edi]"}, {}),
    E("maskmovdqu xmm1, xmm2", {"xmm1", "xmm2", "edi"}, {"mem[edi]"}, {}),
-   E("fadd st, st(1)", X87, X87, {}),
-   E("fmul dword ptr [ebx]", X87 \cup {"ebx", "mem[ebx]"}, X87, {}),
-   E("fld dword ptr [ebx]", X87 \cup {"ebx", "mem[ebx]"}, X87, {}),
-   E("fild word ptr [ebx]", X87 \cup {"ebx", "mem[ebx]"}, X87, {}),
-   E("fstp qword ptr [ebx]", X87 \cup {"ebx"}, X87 \cup {"mem[ebx]"}, {}),
-   E("fst dword ptr [ebx]", X87 \cup {"ebx"}, {"mem[ebx]"}, {}),
-   E("fistp dword ptr [ebx]", X87 \cup {"ebx"}, X87 \cup {"mem[ebx]"}, {}),
-   E("fxch st(1)", X87, X87, {}),
-   E("fchs", X87, X87, {}),
-   E("fsqrt", X87, X87, {}),
-   E("fcomi st, st(1)", X87, {"zf", "pf", "cf"}, {}),
-   E("fucomip st, st(1)", X87, {"zf", "pf", "cf", "x87"}, {}),
-   E("fcompp", X87, X87, {}),
-   E("fcmovb st, st(1)", X87 \cup {"cf"}, X87, {}),
+   \* x87 register forms: sets of stack POSITIONS derived from the stack-relative model X87Pos (a push / pop moves every
+   \* value to the neighbouring position); TOP, status / control word and environment stay the one item "x87"
+   EX("fadd st, st(1)", XP!Arith(0, 1, 0)),
+   EX("fsub st(3), st", XP!Arith(3, 0, 0)),
+   EX("fmul dword ptr [ebx]", XP!ArithM(MemB, 0)),
+   EX("fidiv word ptr [ebx]", XP!ArithM(MemB, 0)),
+   EX("faddp st(1), st", XP!Arith(1, 0, 1)),
+   EX("fmulp st(2), st", XP!Arith(2, 0, 1)),
+   EX("fsubrp st(3), st", XP!Arith(3, 0, 1)),
+   EX("fdivp st(7), st", XP!Arith(7, 0, 1)),
+   EX("fld dword ptr [ebx]", XP!LoadM(MemB)),
+   EX("fild word ptr [ebx]", XP!LoadM(MemB)),
+   EX("fld st(0)", XP!Load(0)),
+   EX("fld st(2)", XP!Load(2)),
+   EX("fstp qword ptr [ebx]", XP!StoreM({"mem[ebx]"}, {"ebx"}, 1)),
+   EX("fst dword ptr [ebx]", XP!StoreM({"mem[ebx]"}, {"ebx"}, 0)),
+   EX("fistp dword ptr [ebx]", XP!StoreM({"mem[ebx]"}, {"ebx"}, 1)),
+   EX("fst st(2)", XP!Store(2, 0)),
+   EX("fstp st(2)", XP!Store(2, 1)),
+   EX("fstp st(0)", XP!Store(0, 1)),
+   EX("fxch st(1)", XP!Xch(1)),
+   EX("fxch st(3)", XP!Xch(3)),
+   EX("fchs", XP!Unary),
+   EX("fsqrt", XP!Unary),
+   EX("fcomi st, st(1)", XP!Cmp(1, {"zf", "pf", "cf"}, 0)),
+   EX("fucomi st, st(3)", XP!Cmp(3, {"zf", "pf", "cf"}, 0)),
+   EX("fucomip st, st(1)", XP!Cmp(1, {"zf", "pf", "cf"}, 1)),
+   EX("fcomip st, st(2)", XP!Cmp(2, {"zf", "pf", "cf"}, 1)),
+   EX("fcom st(2)", XP!Cmp(2, {"x87"}, 0)),
+   EX("fcomp dword ptr [ebx]", XP!CmpM(MemB, {"x87"}, 1)),
+   EX("ficom word ptr [ebx]", XP!CmpM(MemB, {"x87"}, 0)),
+   EX("fcompp", XP!Cmp(1, {"x87"}, 2)),
+   EX("fucompp", XP!Cmp(1, {"x87"}, 2)),
+   EX("fxam", XP!Cmp(0, {"x87"}, 0)),
+   EX("ftst", XP!Cmp(0, {"x87"}, 0)),
+   EX("fcmovb st, st(1)", XP!CMov(1, {"cf"})),
+   EX("fcmove st, st(2)", XP!CMov(2, {"zf"})),
+   EX("fcmovnbe st, st(3)", XP!CMov(3, {"cf", "zf"})),
+   EX("fcmovu st, st(1)", XP!CMov(1, {"pf"})),
    E("fnstsw ax", X87 \cup {"eax"}, {"eax"}, {}),
-   E("fnstcw word ptr [ebx]", X87 \cup {"ebx"}, {"mem[ebx]"}, {}),
-   E("fldcw word ptr [ebx]", {"ebx", "mem[ebx]"}, X87, {})
+   EX("fnstcw word ptr [ebx]", XP!StoreWord({"mem[ebx]"}, {"ebx"})),
+   EX("fldcw word ptr [ebx]", XP!LoadWord(MemB))
 >>
 \* ---- memory cells an instance can touch: <<name, address, bytes>> ---------------------
 Cells(i, s) ==
